@@ -66,9 +66,10 @@ const (
 	fCtxCR    = "C19-table-fragment-cr"
 	fNbsp     = "C19-nbsp-treated-as-whitespace"
 	fForeign  = "C19-foreign-rawtext-name"
+	fHexEmpty = "C19-empty-hex-reference"
 )
 
-var allFindings = []string{fQuote, fAmp, fBlank, fDocCase, fTextarea, fPreNL, fRawText, fNsAttr, fQuirks, fMustache, fCtxCR, fNbsp, fForeign}
+var allFindings = []string{fQuote, fAmp, fBlank, fDocCase, fTextarea, fPreNL, fRawText, fNsAttr, fQuirks, fMustache, fCtxCR, fNbsp, fForeign, fHexEmpty}
 
 // Case is one template source, split into the parts the statement talks about. The source
 // handed to Format is FrontMatter + Gap + Doctype + Body.
@@ -341,6 +342,13 @@ func reparseAttr(v string) string {
 	return tok.Attr[0].Val
 }
 
+// hasEmptyHexRef: the literal text "&#x;" (a hexadecimal reference without digits). The HTML
+// standard leaves it alone, golang.org/x/net/html - the parser the formatter itself uses -
+// reads it as U+FFFD.
+func hasEmptyHexRef(s string) bool {
+	return strings.Contains(s, "&#x;") || strings.Contains(s, "&#X;")
+}
+
 func isBlank(s string) bool { return s != "" && strings.TrimSpace(s) == "" }
 
 var tagLike = regexp.MustCompile(`<[A-Za-z/!?]`)
@@ -423,6 +431,9 @@ func regions(c Case) map[string]bool {
 				if hasWideSpace(a.Val) {
 					r[fNbsp] = true
 				}
+				if hasEmptyHexRef(a.Val) {
+					r[fHexEmpty] = true
+				}
 			}
 			if n.Namespace != "" {
 				// inside svg / math the names style, script, xmp ... are ordinary elements: the parser
@@ -459,6 +470,11 @@ func regions(c Case) map[string]bool {
 			}
 			if mustacheRisky(n.Data) {
 				r[fMustache] = true
+			}
+			for _, m := range mustacheRe.FindAllString(n.Data, -1) {
+				if hasEmptyHexRef(m) {
+					r[fHexEmpty] = true
+				}
 			}
 			if hasWideSpace(n.Data) && !inside(n, "pre", "textarea") {
 				r[fNbsp] = true
